@@ -396,7 +396,7 @@ impl ContextStatistics {
         }
         let last_read = self.last_read.load(Ordering::Relaxed);
         let now = SystemTime::now().unix_timestamp();
-        now - last_read > timeout.as_millis() as u64
+        now.saturating_sub(last_read) > timeout.as_millis() as u64
     }
 }
 
